@@ -107,7 +107,8 @@ def build_lib(variant="plain"):
         _replace_if_changed(os.path.join(gen, "TraceBuilder.hpp.new"), os.path.join(gen, "TraceBuilder.hpp"))
         sh([sys.executable, os.path.join(ROOT, "extract", "lr_tables.py"), os.path.join(REPO, "src/parser.y"), gen], timeout=120)
         sh([sys.executable, os.path.join(ROOT, "extract", "lexemes.py"), os.path.join(REPO, "src/lexer.l"),
-            os.path.join(REPO, "src/keywords.cpp"), os.path.join(gen, "lexemes.json")], timeout=60)
+            os.path.join(REPO, "src/keywords.cpp"), os.path.join(gen, "lexemes.json.new")], timeout=60)
+        _replace_if_changed(os.path.join(gen, "lexemes.json.new"), os.path.join(gen, "lexemes.json"))
         log("lib[%s] up to date in %.1fs" % (variant, time.time() - t0))
         return lib
 
